@@ -772,8 +772,10 @@ def correspond(ctx):
             if f.startswith("driver-"):
                 try: os.remove(os.path.join(work, f))
                 except OSError: pass
-        rc, o, e = vlib.nelua_build(os.path.join(vlib.VERIF, "harness", ID, "driver.nelua"), drv_impl,
-                                    cache_dir=os.path.join(work, "nelua-cache-%d" % os.getpid()))
+        cdir = os.path.join(work, "nelua-cache-%d" % os.getpid())
+        rc, o, e = vlib.nelua_build(os.path.join(vlib.VERIF, "harness", ID, "driver.nelua"), drv_impl, cache_dir=cdir)
+        import shutil
+        shutil.rmtree(cdir, ignore_errors=True)
         if rc != 0 or not os.path.exists(drv_impl):
             ctx.violation("harness-build", "harness", "the Nelua driver does not compile against the library: %s" % (o + e)[-1500:], failing_input=False)
             return {"evaluations": 0}
@@ -974,7 +976,16 @@ def correspond(ctx):
         stopped = rc1 != 0 and len(il2) == len(ops)          # header + all but the last op printed
         msg_ok = MSG[trap] in ierr
         mlast = ml2[len(ops)].partition(" || ")[0] if len(ml2) > len(ops) else "<none>"
-        if not stopped or not msg_ok:
+        if rc1 != 0 and len(il2) < len(ops):
+            # died inside the valid prefix: a failure of that earlier operation
+            k = max(0, len(il2) - 1)
+            n_oracle += 1
+            pop = ops[k]
+            ctx.violation(history_key(kind, typ, ops, k, n), "oracle",
+                          "%s(%s) step %d (%s %d %d %d) is valid but the implementation stopped there (exit status %s): %s" %
+                          (KINDS[kind], TYPES.get(typ, "-"), k, OPN[kind].get(pop[0], pop[0]), pop[1], pop[2], pop[3], rc1, ierr.strip()[-200:]),
+                          detail={"history": describe(kind, typ, ops, k), "replay": "printf '%s\\n' | <driver>" % "\\n".join(lines[:k + 3])})
+        elif not stopped or not msg_ok:
             n_oracle += 1
             what = ("was not stopped: the driver went on and printed '%s'" % (il2[len(ops)][:200] if len(il2) > len(ops) else "?")) if not stopped else \
                    ("stopped, but not with the documented message '%s': %s" % (MSG[trap], ierr[-200:]))
